@@ -56,7 +56,8 @@ type vfHandler struct {
 	fixedResponse bool
 	fixedRead     bool
 	attempts      []vfAttempt
-	maxResp       int // length of the response body pool to draw writes from
+	maxResp       int   // length of the response body pool to draw writes from
+	respLimit     int64 // the buffer\'s response limit (0 or less: none)
 }
 
 func (h *vfHandler) ServeHTTP(w http.ResponseWriter, r *http.Request) {
@@ -119,14 +120,18 @@ func (h *vfHandler) ServeHTTP(w http.ResponseWriter, r *http.Request) {
 		}
 		l = verifConcretize(l, 0, 3)
 		chunk := string(vfPayload[k*3 : k*3+l])
-		if k == 0 && id == 0 && verifBool("viaCopy") { // first write of the first attempt
+		var werr error
+		wn := int64(0)
+		if id == 0 && verifBool("viaCopy") { // the first attempt streams all it writes
 			// streaming handlers (http.ServeContent, ...) hand the writer to io.Copy
-			n, err := io.Copy(w, io.LimitReader(strings.NewReader(chunk), int64(len(chunk))))
-			verifAssert("handler-write-accepted", verifAnd(err == nil, n == int64(len(chunk))))
+			wn, werr = io.Copy(w, io.LimitReader(strings.NewReader(chunk), int64(len(chunk))))
 		} else {
 			n, err := w.Write([]byte(chunk))
-			verifAssert("handler-write-accepted", verifAnd(err == nil, n == len(chunk)))
+			wn, werr = int64(n), err
 		}
+		// a write is accepted in full; it may only be refused once the response is over its limit
+		over := h.respLimit > 0 && int64(len(a.wrote)+len(chunk)) > h.respLimit
+		verifAssert("handler-write-accepted", verifOr(verifAnd(werr == nil, wn == int64(len(chunk))), over))
 		a.wrote += chunk
 	}
 	h.attempts = append(h.attempts, a)
@@ -161,6 +166,7 @@ func VerifBufferServe() {
 	} else {
 		verifAssume(verifAnd(b.maxRequestBodyBytes == -1, b.memRequestBodyBytes == 1))
 	}
+	h.respLimit = b.maxResponseBodyBytes
 	// work partition
 	part := verifParam("part")
 	verifAssume(verifBool("head") == (part&1 != 0))
